@@ -6,7 +6,9 @@ PROPS = {
         suites=[dict(name="d3", cfg="matrix")],
         rule="query = one codec call (field / header / classification / status mark) answered by the Rust codec of "
              "both crates and by the Lean model; torn-word patterns are enumerated exhaustively on the implementation "
-             "(oracle) and counted under input_distribution; distinct = distinct query text",
+             "(oracle) and counted under input_distribution; `alloc s` = start_update on a ring whose only image is "
+             "confirmed with sequence number s, answer = the sequence numbers written (model: choosePair / seqNext), "
+             "oracle = every written header parses; distinct = distinct query text",
         trusted=["crate bitvec / core as compiled"],
         assumptions=["NOR program = bitwise AND; a torn program clears any subset of the bits to clear"],
     ),
